@@ -212,4 +212,35 @@ example : wordAdd.runStack 0 [.tagged (.int 2) (.cons (.str ['#', 'f', 'm', 't']
 example : KeysComparable (tagMap (.tagged (.int 1) (.cons (.str ['a']) .nil .nil))) [.str ['#', 'f', 'm', 't']] := by decide
 example : (Cell.int 7).insertTag (.str ['k']) (.flag true) = .tagged (.int 7) (.cons (.str ['k']) (.flag true) .nil) := by decide
 
+/-! ### equality itself — what `equal?`, `assert-eq`, map lookups and the `case … of` instruction compare with -/
+
+/-- `PartialEq for Cell` looks at the values: attaching a tag map to either operand, or replacing the one it carries,
+    changes no comparison (at the top level by this theorem, inside vectors and maps because the comparison of their
+    elements is this same function) -/
+theorem equality_ignores_tags (a b : Cell) (ta tb : PairList) :
+    Cell.beq (a.withTags ta) b = Cell.beq a b ∧ Cell.beq a (b.withTags tb) = Cell.beq a b ∧
+    Cell.beq (a.withTags ta) (b.withTags tb) = Cell.beq a b := by
+  have left : ∀ (x y : Cell) (t : PairList), Cell.beq (x.withTags t) y = Cell.beq x y := by
+    intro x y t
+    cases x <;> simp [Cell.withTags, Cell.value, Cell.beq]
+  have right : ∀ (x y : Cell) (t : PairList), Cell.beq x (y.withTags t) = Cell.beq x y := by
+    intro x y t
+    have hv : ∀ (v : Cell), Cell.beqV v (y.withTags t) = Cell.beqV v y := by
+      intro v
+      cases y <;> simp [Cell.withTags, Cell.value, Cell.beqV]
+    cases x <;> simp [Cell.beq, hv]
+  exact ⟨left a b ta, right a b tb, by rw [left, right]⟩
+
+/-- the `case … of` instruction (`Opcode::CaseOf`) takes its branch by that comparison alone: the selector and the
+    candidate are popped / looked at as they are and handed to `Cell.beq`, so whether either carries tags cannot change
+    which arm is taken (a discriminant test in front of the comparison — seeded change C13/12 — is what this rules out
+    in the model; the correspondence holds the code to the model) -/
+theorem case_of_compares_values (sel cand : Cell) (ts tc : PairList) :
+    Cell.beq (cand.withTags tc) (sel.withTags ts) = Cell.beq cand sel :=
+  (equality_ignores_tags cand sel tc ts).2.2
+
+/-- `|02| open-bitstr u8` (a read result carries its `len` tag) against the literal `2` -/
+example : Cell.beq ((Cell.int 2).withTags (.cons (.str ['l','e','n']) (.int 8) .nil)) (.int 2) = true := by
+  simp [Cell.beq, Cell.beqV, Cell.beqVV, Cell.withTags, Cell.value]
+
 end Xeh.C13
